@@ -346,6 +346,7 @@ struct Regs {
     q: Vec<Reg>,
     c: Vec<Reg>,
     nq: usize,
+    #[allow(dead_code)]
     nc: usize,
 }
 
@@ -1135,7 +1136,7 @@ pub fn run() {
     );
 
     // (i-a') observation only: how far beyond d = 16 is the decimal round trip exact?
-    {
+    if c.replay.is_none() {
         let dmax = t.pick(128i64, 512i64);
         let mut first_bad: Option<(i64, i64)> = None;
         let mut bad_count = 0u64;
@@ -1180,7 +1181,7 @@ pub fn run() {
     });
 
     // (i-c) random circuits
-    let (n_rand, max_q, max_d) = t.pick((8000usize, 6usize, 40usize), (400_000usize, 10usize, 120usize));
+    let (n_rand, max_q, max_d) = t.pick((8000usize, 6usize, 40usize), (1_500_000usize, 10usize, 120usize));
     par_cases("random-circuits", n_rand, move |r, i| {
         let mut p = CircParams::unitary(max_q, max_d, PhPool::Float);
         p.pp = false;
@@ -1208,7 +1209,7 @@ pub fn run() {
     });
 
     // (ii) generated texts
-    let n_text = t.pick(10_000usize, 600_000usize);
+    let n_text = t.pick(10_000usize, 2_000_000usize);
     par_cases("generated-texts", n_text, move |r, i| {
         let p = gen_program(r, 12);
         check_text("generated-texts", i, &p);
@@ -1226,12 +1227,12 @@ pub fn run() {
     });
 
     // (iii) rejection corpus
-    let n_rej = t.pick(5000usize, 200_000usize);
+    let n_rej = t.pick(5000usize, 600_000usize);
     par_cases("unsupported-constructs", n_rej, move |r, i| {
         check_reject("unsupported-constructs", i, r);
     });
     // observation only: user-declared opaque gates are accepted as UnknownGate
-    {
+    if c.replay.is_none() {
         let text = "OPENQASM 2.0;\nqreg q[2];\nopaque mystery(alpha) a,b;\nh q[0];\nmystery(pi/2) q[0],q[1];\n";
         let obs = match parse(text) {
             Ok(Ok(p)) => json!({"result": "Ok", "parsed": circuit_json(&p)}),
@@ -1239,6 +1240,16 @@ pub fn run() {
             Err(e) => json!({"result": "panic", "panic": e.text()}),
         };
         c.extra("observation_user_opaque_gate", json!({"qasm": text, "observed": obs, "note": "no verdict: a declared opaque gate is not an undefined name"}));
+    }
+    // observation only: a 0-qubit circuit prints `qreg q[0];`, which is not valid OpenQASM 2
+    if c.replay.is_none() {
+        let text = Circuit::new(0).to_qasm();
+        let obs = match parse(&text) {
+            Ok(Ok(p)) => json!({"result": "Ok", "parsed": circuit_json(&p)}),
+            Ok(Err(e)) => json!({"result": "Err", "error": e.chars().take(300).collect::<String>()}),
+            Err(e) => json!({"result": "panic", "panic": e.text()}),
+        };
+        c.extra("observation_zero_qubit_circuit", json!({"printed": text, "observed": obs, "note": "no verdict: outside the property (see assumptions)"}));
     }
     c.extra("exhaustive", json!(false));
 }
